@@ -623,12 +623,21 @@ class ADEV(Pytree):
                                 tangent_outs = jtu.tree_map(_zero_tangent_like, primal_outs)
                             else:
                                 jvp = jax_autodiff.primitive_jvps.get(eqn.primitive)
-                                if not jvp:
-                                    msg = f"differentiation rule for '{eqn.primitive}' not implemented"
-                                    raise NotImplementedError(msg)
-                                primal_outs, tangent_outs = jvp(
-                                    flat_primals, canonical_tangents, **params
-                                )
+                                if jvp:
+                                    primal_outs, tangent_outs = jvp(
+                                        flat_primals, canonical_tangents, **params
+                                    )
+                                else:
+                                    # No table entry (custom_jvp / custom_vjp calls are
+                                    # differentiated by JAX's tracer, not by a rule):
+                                    # let JAX differentiate the bound primitive.
+                                    primal_outs, tangent_outs = jax.jvp(
+                                        lambda *xs: eqn.primitive.bind(
+                                            *subfuns, *xs, **params
+                                        ),
+                                        flat_primals,
+                                        _instantiate_zero_tangents(canonical_tangents),
+                                    )
                                 if eqn.primitive.multiple_results:
                                     # JVP rules are free to return lists or tuples.
                                     primal_outs = list(primal_outs)
